@@ -3,7 +3,7 @@
    [lrun lst0 acts]: any interleaving, at the granularity of single metadata-store operations, of lease / renew /
    return calls by any number of nodes with any lease durations (also already expired ones) and any passage of time
    (one global non-decreasing clock). *)
-From Verif Require Import Model.Bytes Model.Lease Proofs.LeaseFacts.
+From Verif Require Import Model.Bytes Model.Lease Model.LeaseWorker Proofs.LeaseFacts Proofs.LeaseWorkerFacts.
 
 (* in every reachable state at most one node holds an unexpired lease *)
 Theorem C15_mutex : forall (acts : list action) (n m : nat),
@@ -40,6 +40,36 @@ Theorem C15_return_own : forall (s : lst) (n : nat) (r : lrec), LInv s -> pcs s 
   (rec s = Some r /\ lid r = n /\ rec (fst (lexec s (AApply n))) = None).
 Proof. exact return_own. Qed.
 Print Assumptions C15_return_own.
+
+
+(* ---- who ACTS on a lease: the lease routine of the replication worker (replication/worker.go) ----
+   The worker of a node replicates only while its [leased] flag is set; the flag is the outcome of the node's last
+   finished LeaseTable call.  [wrun wst0 acts]: any interleaving of the workers' calls (read-and-decide, write applied,
+   or failure with another error), other nodes' store operations and the clock. *)
+Theorem C15_worker_invariant : forall (isw : nat -> bool) (acts : list waction) (s : wst), WInv isw s ->
+  Forall (wf_action isw) acts -> WInv isw (wrun s acts).
+Proof. exact wrun_inv. Qed.
+Theorem C15_worker_invariant_init : forall isw, WInv isw wst0.
+Proof. exact WInv0. Qed.
+Print Assumptions C15_worker_invariant.
+
+(* a worker with the flag set, still within the lease its last call obtained, holds the lease ... *)
+Theorem C15_worker_flag_means_lease : forall (isw : nat -> bool) (s : wst) (n : nat) (u : N), WInv isw s ->
+  isw n = true -> flag s n = true -> lastok s n = Some u -> now (base s) <= u -> holder (base s) n.
+Proof. exact flag_holder. Qed.
+(* ... so two workers with the flag set are the same node, or one of them is past the end of the lease its last
+   successful call obtained (the routine renews every interval and takes the lease for four) *)
+Theorem C15_workers_exclusive : forall (isw : nat -> bool) (s : wst) (n m : nat), WInv isw s ->
+  isw n = true -> isw m = true -> flag s n = true -> flag s m = true ->
+  n = m \/ (exists u, lastok s n = Some u /\ u < now (base s)) \/ (exists u, lastok s m = Some u /\ u < now (base s)).
+Proof. exact flags_exclusive. Qed.
+Print Assumptions C15_workers_exclusive.
+(* every call that does not return nil takes the flag down *)
+Theorem C15_worker_flag_down_on_error : forall (s : wst) (n : nat), flag (wexec s (WErr n)) n = false.
+Proof. exact flag_down_after_failure. Qed.
+Theorem C15_worker_flag_down_on_refusal : forall (s : wst) (n : nat) (dur : N) (b : lst),
+  lexec (base s) (ALease n dur false) = (b, RRefused) -> flag (wexec s (WCall n dur)) n = false.
+Proof. exact flag_down_after_refusal. Qed.
 
 (* non-vacuity: two nodes race for an unclaimed table, the loser retries after expiry *)
 Example C15_example :
